@@ -66,3 +66,53 @@ Definition index_slice (name : bytes) (d : kdb) (entries : list entry) : Prop :=
    absent or whose Key callback returns nil has no key and matches nothing *)
 Definition okey_matches (prefix : bytes) (filt : option (bytes -> bool)) (ok : option bytes) : bool :=
   match ok with Some k => key_matches prefix filt k | None => false end.
+
+(* the state the index maintenance keeps: ids are unique and NUL-free, the key
+   space is sorted and holds exactly the laid-out entries of every index *)
+Definition index_state {V} (idxs : list (index V)) (s : vstore V) (d : kdb) : Prop :=
+  NoDup (map fst s) /\
+  (forall id v, In (id, v) s -> nul_free id = true) /\
+  sortedb d = true /\
+  (forall k, In k d <-> exists ix e, In ix idxs /\ In e (entries_of ix s) /\
+                                      k = get_key (iname ix) (fst e) (snd e)).
+
+(* index names are distinct and contain no ':' *)
+Definition names_ok {V} (idxs : list (index V)) : Prop :=
+  (forall ix, In ix idxs -> colon_free (iname ix) = true) /\ NoDup (map iname idxs).
+
+Definition mut_id {V} (m : mutation V) : bytes :=
+  match m with MCreate id _ => id | MUpdate id _ => id | MDelete id => id end.
+Definition muts_ids_nul_free {V} (ms : list (mutation V)) : bool :=
+  forallb (fun m => nul_free (mut_id m)) ms.
+
+(* ---- C14: query-change callbacks ---- *)
+(* some index key of the value differs between before and after *)
+Definition key_changed {V} (idxs : list (index V)) (c : change V) : bool :=
+  let '(_, b, a) := c in
+  existsb (fun ix => negb (okey_eq (opt_key ix b) (opt_key ix a))) idxs.
+
+(* the index after the changes [cs], processed in order *)
+Definition index_after {V} (idxs : list (index V)) (d : kdb) (cs : list (change V)) : kdb :=
+  fst (run_changes idxs 0 d cs).
+
+(* what the index tasks of [cs] must do: per change, in order, the index
+   transaction, then - iff a key changed - each of the [ncb] callbacks once,
+   each seeing the index after that transaction *)
+Fixpoint expected_effects {V} (idxs : list (index V)) (ncb : nat) (d : kdb) (cs : list (change V))
+  : list (effect V) :=
+  match cs with
+  | [] => []
+  | c :: r =>
+    let d' := index_after idxs d [c] in
+    EIndexTxn (fst (fst c)) d' ::
+    (if key_changed idxs c
+     then map (fun j => ECallback j (fst (fst c)) (snd (fst c)) (snd c) d') (seq 0 ncb) else [])
+    ++ expected_effects idxs ncb d' r
+  end.
+
+(* the notifications callback number j received, in order *)
+Definition cb_log {V} (j : nat) (es : list (effect V)) : list (change V) :=
+  flat_map (fun e => match e with
+                     | ECallback j' id b a _ => if Nat.eqb j' j then [(id, b, a)] else []
+                     | _ => []
+                     end) es.
